@@ -38,7 +38,11 @@ ImportedDefs ==
       ImpU("ik", "ikm"), ImpU("is", "ims"), ImpU("ib", "iub"),
       U("km", <<Kid("metre", "kilo", 1, 0)>>), U("ik2", <<Kid("ik", "none", 2, 0)>>), U("km2", <<Kid("km", "none", 2, 0)>>), U("m2", <<Kid("metre", "none", 2, 0)>>),
       U("ikpis", <<Kid("ik", "none", 1, 0), Kid("is", "none", -1, 0)>>), U("mps", <<Kid("metre", "none", 1, 0), Kid("second", "none", -1, 0)>>),
-      U("pis2", <<Kid("is", "none", -2, 0)>>), U("kik", <<Kid("ik", "kilo", 1, 0)>>), U("ib2", <<Kid("ib", "none", 2, 0)>>), U("ibm", <<Kid("ib", "none", 1, 0), Kid("metre", "none", 1, 0)>>)>>
+      U("pis2", <<Kid("is", "none", -2, 0)>>), U("kik", <<Kid("ik", "kilo", 1, 0)>>), U("ib2", <<Kid("ib", "none", 2, 0)>>), U("ibm", <<Kid("ib", "none", 1, 0), Kid("metre", "none", 1, 0)>>),
+      \* a second imported model that holds a single units, reached through a chain of local units that is longer than that
+      \* model is large (names starting with j: the executor puts them in / imports them from its second library model)
+      LibU("jmv", <<Kid("volt", "milli", 1, 0)>>), ImpU("jc", "jmv"), U("jb", <<Kid("jc", "none", 1, 0)>>), U("ja", <<Kid("jb", "none", 1, 0)>>),
+      U("jk", <<Kid("ja", "kilo", 1, 0)>>), U("mv", <<Kid("volt", "milli", 1, 0)>>), U("v1", <<Kid("volt", "none", 1, 0)>>)>>
 Family == CASE Which = "imported" -> BaseDefs \o ImportedDefs
             [] Which = "single" -> BaseDefs \o Numbered("s", SeqOf(SingleKids))
             [] Which = "nested" -> BaseDefs \o NestedDefs
@@ -66,7 +70,7 @@ Laws == a # "-" =>
         /\ Eqv(a, b) <=> (Cmp(a, b) /\ FLog(a, b) = 0)
 \* child order and indirection do not matter (witnesses in the nested family)
 WitnessesImported == Which = "imported" =>
-        /\ Eqv("ik", "km") /\ Eqv("ik2", "km2") /\ ~Cmp("ik2", "metre") /\ FLog("ikpis", "mps") = -6 /\ Cmp("ib2", "ib2") /\ ~Cmp("ib2", "ib")
+        /\ Eqv("ja", "mv") /\ Eqv("jk", "v1") /\ FLog("ja", "v1") = 3 /\ Eqv("ik", "km") /\ Eqv("ik2", "km2") /\ ~Cmp("ik2", "metre") /\ FLog("ikpis", "mps") = -6 /\ Cmp("ib2", "ib2") /\ ~Cmp("ib2", "ib")
 Witnesses == Which = "nested" =>
         /\ Eqv("pa1", "pa2") /\ Eqv("pa1", "pa3") /\ Eqv("pa3", "pa4")
         /\ Cmp("gpl", "kgpm3") /\ FLog("gpl", "kgpm3") = 0 /\ Eqv("mgpml", "gpl")
